@@ -350,6 +350,10 @@ def r03_7(ctx):
             sorted_vars.add(tgt)
         elif kt is not None and kt != "?" and "tags['SO'][1]" in kt and "int(" not in kt and "float(" not in kt:
             text_sorted.append(st)
+        elif kt is not None and kt != "?" and "tags['SO']" not in kt and any(f"tags['{o_}']" in kt for o_ in ("SR", "LN", "SN", "BO", "NO")):
+            other_ = next(o_ for o_ in ("SR", "LN", "SN", "BO", "NO") if f"tags['{o_}']" in kt)
+            ctx.violated("R03.7", gp.where(st), f"`{norm(st)[:70]}` orders the contig's segments by their {other_} tag, not by the offset SO: all segments of a contig share one rank, the stable sort leaves them in file order, and the interval search then bisects an unsorted list", key_of(gp, f"sorted-by-other-tag:{other_}"))
+            unknown_sort.append(st)
         else:
             unknown_sort.append(st)
     # undecorate: [x for _, x in pairs] / [p[1] for p in pairs]
